@@ -8,8 +8,8 @@ Import ListNotations.
 Open Scope N_scope.
 
 (* On every proto that protodesc.NewFile accepts and that is well formed for the builder
-   ([wf37]: types set, references absolute -- what protoc emits -- and none of the three
-   recorded divergences), filedesc.Builder yields the same resolved descriptor, hence the same
+   ([wf37]: types set, references absolute -- what protoc emits -- and none of the two
+   recorded divergences FK2, FK3), filedesc.Builder yields the same resolved descriptor, hence the same
    value for every accessor computed from it.
    _partial: wire decoding of the raw descriptor is abstract (second theorem: any decoder that
    inverts the encoder); options opaque; services by name; lazy initialisation is not modelled
@@ -27,12 +27,7 @@ Theorem C37_builders_agree_raw_partial :
 Proof. exact builders_agree_raw. Qed.
 Print Assumptions C37_builders_agree_raw_partial.
 
-(* the exclusions in [wf37] are necessary: the faithful models disagree (findings FK1, FK3, FK2) *)
-Theorem C37_builders_agree_refuted_enum_features :
-  exists p, first_enum_open (new_file idc [] p) = Some false /\ first_enum_open (fd_build idc [] p) = Some true.
-Proof. exact builders_disagree_enum_features. Qed.
-Print Assumptions C37_builders_agree_refuted_enum_features.
-
+(* the exclusions in [wf37] are necessary: the faithful models disagree (findings FK3, FK2; FK1 was repaired by 42c075f) *)
 Theorem C37_builders_agree_refuted_packed_feature :
   exists p, first_field_packed (new_file idc [] p) = Some false /\ first_field_packed (fd_build idc [] p) = Some true.
 Proof. exact builders_disagree_packed_feature. Qed.
@@ -50,3 +45,9 @@ Proof. exact ex_file_wf37. Qed.
 
 Example C37_ex_decoder : forall p : FileP, (fun _ : bytes => Some p) ((fun _ : FileP => @nil byte) p) = Some p.
 Proof. reflexivity. Qed.
+
+(* regression for the repaired FK1: an enum-level enum_type override is honoured by both models *)
+Example C37_ex_enum_features :
+  wf37 fk1_file = true /\
+  first_enum_open (new_file idc [] fk1_file) = Some false /\ first_enum_open (fd_build idc [] fk1_file) = Some false.
+Proof. exact builders_agree_enum_features_example. Qed.
